@@ -374,7 +374,9 @@ func c12stress(c *Ctx, ref map[string]probeResult, goroutines, procs int, rounds
 	var handoffs, printersSeen int64
 	var ownerMu sync.Mutex
 	owner := map[string]int{}
-	var calls atomic.Int64
+	// Per-goroutine counters, summed after the goroutines have finished: a shared atomic
+	// counter would order the goroutines' calls for the race detector and hide races.
+	callsBy := make([]int64, goroutines)
 	newsBefore := redact.VerifPoolNews()
 	for g := 0; g < goroutines; g++ {
 		wg.Add(1)
@@ -400,11 +402,13 @@ func c12stress(c *Ctx, ref map[string]probeResult, goroutines, procs int, rounds
 					a := abs[r.Intn(len(abs))]
 					a.run(y)
 					hist = append(hist, a.name)
-					calls.Add(1)
+					callsBy[g]++
 				}
 				// which printer does this goroutine get now?
 				var seen []string
-				_ = redact.Sprint(widthReaderSF{nil, &seen})
+				if !yields { // printer tracking takes a lock: only in the phase without the race detector
+					_ = redact.Sprint(widthReaderSF{nil, &seen})
+				}
 				for _, addr := range seen {
 					ownerMu.Lock()
 					if o, ok := owner[addr]; !ok {
@@ -426,7 +430,7 @@ func c12stress(c *Ctx, ref map[string]probeResult, goroutines, procs int, rounds
 						}()
 						return p.run(y)
 					}()
-					calls.Add(1)
+					callsBy[g]++
 					w.Eval(1)
 					if y != nil {
 						y()
@@ -456,13 +460,17 @@ func c12stress(c *Ctx, ref map[string]probeResult, goroutines, procs int, rounds
 		}(g)
 	}
 	wg.Wait()
+	var calls int64
+	for _, n := range callsBy {
+		calls += n
+	}
 	poolPristine(c, "end of "+cfg)
 	news := redact.VerifPoolNews() - newsBefore
-	c.AddCount("calls", calls.Load())
+	c.AddCount("calls", calls)
 	c.AddCount("pool_allocations", news)
 	c.AddCount("printers_seen", printersSeen)
 	c.AddCount("cross_goroutine_handoffs", handoffs)
-	c.Extra("config."+cfg, map[string]int64{"calls": calls.Load(), "pool_allocations": news, "distinct_printers_seen": printersSeen, "cross_goroutine_handoffs": handoffs})
+	c.Extra("config."+cfg, map[string]int64{"calls": calls, "pool_allocations": news, "distinct_printers_seen": printersSeen, "cross_goroutine_handoffs": handoffs})
 }
 
 func runC12(c *Ctx) {
@@ -512,29 +520,46 @@ func c12differential(c *Ctx) {
 	registerC04Types()
 	o := c04opts()
 	n := c.pick(60000, 1500000)
-	// Types nobody has printed yet, printed with field names by all workers at once
-	// (per-type caches filled lazily are a classic place for a race).
-	for round := 0; round < int(c.pick(20, 200)); round++ {
+	// Types nobody has printed yet, printed with field names by many goroutines
+	// released together from a barrier (per-type caches filled lazily are a classic
+	// place for a race; the window is the very first use of the type).
+	rounds := int(c.pick(150, 1500))
+	w0 := &Worker{C: c, ID: 0, counts: map[string]int64{}}
+	for round := 0; round < rounds; round++ {
 		var fields []reflect.StructField
-		for k := 0; k < 6; k++ {
+		for k := 0; k < 8; k++ {
 			fields = append(fields, reflect.StructField{Name: fmt.Sprintf("F%d_%d_%d", c.Seed%1000, round, k), Type: reflect.TypeOf(0)})
 		}
 		v := reflect.New(reflect.StructOf(fields)).Elem().Interface()
-		want := map[string]string{}
-		var mu sync.Mutex
-		c.ParallelFor(int64(c.Workers*4), func(w *Worker, i int64) {
-			f := []string{"%+v", "%#v", "%v"}[i%3]
-			got := redact.Sprintf(f, v).StripMarkers()
-			ref := fmt.Sprintf(f, v)
-			w.Eval(1)
-			if got != ref {
-				w.Violate("C12 fresh-type", "a struct type printed for the first time by several goroutines at once: "+q(got)+", fmt prints "+q(ref), map[string]string{"format": f})
+		ref := map[string]string{"%+v": fmt.Sprintf("%+v", v), "%#v": fmt.Sprintf("%#v", v)}
+		var gate atomic.Int32
+		var wg sync.WaitGroup
+		const G = 16
+		got := make([]string, G)
+		for g := 0; g < G; g++ {
+			wg.Add(1)
+			go func(g int) {
+				defer wg.Done()
+				f := []string{"%+v", "%#v"}[g%2]
+				for gate.Load() == 0 {
+				}
+				got[g] = redact.Sprintf(f, v).StripMarkers()
+			}(g)
+		}
+		gate.Store(1)
+		wg.Wait()
+		for g := 0; g < G; g++ {
+			f := []string{"%+v", "%#v"}[g%2]
+			w0.Eval(1)
+			if got[g] != ref[f] {
+				c.Violate("C12 fresh-type", "a struct type printed for the first time by several goroutines at once: "+q(got[g])+", fmt prints "+q(ref[f]), map[string]string{"format": f})
 			}
-			mu.Lock()
-			want[f] = ref
-			mu.Unlock()
-		})
+		}
 	}
+	c.mu.Lock()
+	c.res.Evaluations += w0.evals
+	c.mu.Unlock()
+	c.AddCount("fresh_struct_types_printed_concurrently", int64(rounds))
 	for _, procs := range []int{16, 4} {
 		prev := runtime.GOMAXPROCS(procs)
 		c.ParallelFor(n/2, func(w *Worker, i int64) {
